@@ -235,7 +235,7 @@ def run_model(case_file, shards=NPROC, timeout=900, impl=None):
                     f.write("%s %s\n" % (cid, impl.get(cid, "")))
             cmd.append(ipart)
         procs.append((part, ipart, subprocess.Popen(cmd, stdout=subprocess.PIPE, stderr=subprocess.STDOUT, text=True)))
-    model, spec, orc = {}, {}, {}
+    model, spec, orc, selfrej = {}, {}, {}, {}
     for part, ipart, p in procs:
         out, _ = p.communicate()
         os.unlink(part)
@@ -247,7 +247,10 @@ def run_model(case_file, shards=NPROC, timeout=900, impl=None):
             if not line:
                 continue
             cid, tag, *rest = line.split(" ", 2)
-            {"M": model, "S": spec, "O": orc}[tag][cid] = rest[0] if rest else ""
+            {"M": model, "S": spec, "O": orc, "X": selfrej}[tag][cid] = rest[0] if rest else ""
+    if selfrej:
+        k = sorted(selfrej)[0]
+        raise CheckFailure("oracle-rejects-model", "the predicate oracle rejects the model's own trace on case %s: %s" % (k, selfrej[k]))
     if impl is not None:
         return model, spec, orc
     return model, spec
@@ -319,7 +322,8 @@ class Report:
         if self.violations:
             rc = 1
             # smallest replay first
-            self.violations.sort(key=lambda v: len(json.dumps(v[1])))
+            # a violation with a concrete failing input first, then the smallest replay
+            self.violations.sort(key=lambda v: (0 if v[1].get("failing_input_found", True) else 1, len(json.dumps(v[1]))))
             what, replay = self.violations[0]
             h = hashlib.sha1(json.dumps(replay, sort_keys=True).encode()).hexdigest()[:10]
             path = os.path.join(REPLAYS, "%s-%s.json" % (self.pid, h))
@@ -420,7 +424,7 @@ def correspond(rep, name, cases, theorem, compare_model=True, impl_timeout=900):
                       "theorem": theorem, "failing_input_found": True}, tags)
         elif compare_model and i != m:
             dis += 1
-            rep.fail("model differs from implementation although both meet the specification's observation",
+            rep.fail("model differs from implementation" + ("" if sp == "UNSPECIFIED" else " although both meet the specification's observation"),
                      {"case": text, "impl": i, "spec": sp, "model": m, "tags": tags,
                       "correspondence": theorem, "failing_input_found": False}, tags)
     c = rep.coverage
